@@ -222,5 +222,13 @@ def exType6 : Design :=
     blks := [⟨1, false, [(0, .at)], []⟩] }
 example : (elaborate exType6).verdict = some (.signalType 6) := by decide
 example : opErr true .ff false = some .updateFFNonTop := by decide
+/-- a second write with a wrong operator to a signal the block already wrote legally is rejected, in
+either statement order, and so is a `for` target -/
+def exSecondWrite (ops : List Op) : Design :=
+  { objs := [⟨0, .outp, 0, [], none⟩], par := [none], conns := [], blks := [⟨0, false, ops.map (fun o => (0, o)), []⟩] }
+example : (elaborate (exSecondWrite [.at, .assign])).verdict = some .updateBlockWrite := by decide
+example : (elaborate (exSecondWrite [.assign, .at])).verdict = some .updateBlockWrite := by decide
+example : (elaborate (exSecondWrite [.at, .forT])).verdict = some .updateBlockWrite := by decide
+example : (elaborate (exSecondWrite [.at, .at])).verdict = none := by decide
 
 end PV.C09
